@@ -192,8 +192,18 @@ impl Fx {
 pub fn small_state(core: &Core) -> Vec<(&'static str, u64)> {
   let m = &core.memory;
   let io = &m.io;
+  #[cfg(gb_dynarec_verif)]
   let (line, mode, dots) = io.video.verif_position();
+  #[cfg(not(gb_dynarec_verif))]
+  let (line, mode, dots) = (io.video.get_ly(), io.video.get_current_mode(), 0usize);
+  #[cfg(gb_dynarec_verif)]
   let dma = m.verif_dma_state();
+  #[cfg(not(gb_dynarec_verif))]
+  let dma: Option<(usize, u8)> = if m.oam_dma.is_some() { Some((0, 0)) } else { None };
+  #[cfg(gb_dynarec_verif)]
+  let (phase, joy) = (io.timer.verif_cycle_count() as u64, io.joypad.verif_pending() as u64);
+  #[cfg(not(gb_dynarec_verif))]
+  let (phase, joy) = ((io.timer.get_divider() as u64) << 8, 0u64);
   vec![
     ("af", ({ core.registers.af } & 0xffff) as u64),
     ("bc", ({ core.registers.bc } & 0xffff) as u64),
@@ -205,7 +215,7 @@ pub fn small_state(core: &Core) -> Vec<(&'static str, u64)> {
     ("run", run_code(&core.run_state) as u64),
     ("if", io.interrupt_flag.as_u8() as u64),
     ("ie", crate::mem::memory_read_byte(m as *const MemoryAreas, 0xFFFF) as u64),
-    ("div_phase", io.timer.verif_cycle_count() as u64),
+    ("div_phase", phase),
     ("tima", io.timer.get_counter() as u64),
     ("tma", io.timer.get_modulo() as u64),
     ("tac", io.timer.get_timer_control() as u64),
@@ -223,7 +233,7 @@ pub fn small_state(core: &Core) -> Vec<(&'static str, u64)> {
     ("wy", io.video.get_window_y() as u64),
     ("wx", io.video.get_window_x() as u64),
     ("p1", (io.joypad.get_value() & 0x3f) as u64),
-    ("joy_pending", io.joypad.verif_pending() as u64),
+    ("joy_pending", joy),
     ("sb", io.serial.get_data() as u64),
     ("sc", io.serial.get_control() as u64),
     ("dma", match dma { None => 0xffff_ffff, Some((s, o)) => ((s as u64) << 8) | o as u64 }),
@@ -269,6 +279,7 @@ pub fn big_digest(core: &Core) -> u64 {
 
 // ---------------------------------------------------------------- bus trace (hook H1)
 
+#[cfg(gb_dynarec_verif)]
 pub fn trace_start() {
   unsafe {
     crate::mem::verif_trace::LEN = 0;
@@ -277,6 +288,7 @@ pub fn trace_start() {
   }
 }
 
+#[cfg(gb_dynarec_verif)]
 pub fn trace_stop() -> (Vec<u32>, bool) {
   unsafe {
     crate::mem::verif_trace::ENABLED = false;
@@ -285,6 +297,19 @@ pub fn trace_stop() -> (Vec<u32>, bool) {
     let v = std::slice::from_raw_parts(p, n).to_vec();
     (v, crate::mem::verif_trace::OVERFLOW)
   }
+}
+
+/// hooks-off ("plain") build of the harness: no bus recorder; callers compare memory digests
+#[cfg(not(gb_dynarec_verif))]
+pub fn trace_start() {}
+
+#[cfg(not(gb_dynarec_verif))]
+pub fn trace_stop() -> (Vec<u32>, bool) {
+  (Vec::new(), false)
+}
+
+pub fn hooks_on() -> bool {
+  cfg!(gb_dynarec_verif)
 }
 
 /// writes only: (addr, value)
